@@ -39,3 +39,45 @@ def isFinal (I : PrimInst) (s : PState) : Bool :=
 end PrimInst
 
 end Opf
+
+/-! ### evaluation strategy: freeze function-valued states into arrays
+
+`fire` builds closures over the previous state; replaying a long order through nested closures
+re-evaluates them exponentially often.  `freeze` tabulates the first `n` values of every field
+(and falls back to the closure beyond `n`); it is the identity on states (`freeze_eq`, proved in
+`Lemmas/Lawful.lean`), so `runPicksF` below computes exactly `runPicks`. -/
+namespace Opf
+
+/-- `tabOf a f`: array lookup with the function itself as fall-back beyond the table. -/
+def tabOf {β : Type} (a : Array β) (f : Nat → β) : Nat → β :=
+  fun x => if h : x < a.size then a[x] else f x
+
+namespace CompInst
+/-- the tables are built when `freeze` is called (it returns a structure, so the `let`s are evaluated
+once), the closures only index them. -/
+def freeze (n : Nat) (s : AState) : AState :=
+  let c := (Array.range n).map s.color
+  let k := (Array.range n).map s.cost
+  let p := (Array.range n).map s.pred
+  let l := (Array.range n).map s.lab
+  { color := tabOf c s.color, cost := tabOf k s.cost, pred := tabOf p s.pred, lab := tabOf l s.lab, order := s.order }
+
+def runPicksF (I : CompInst) (s : AState) : List Nat → Option AState
+  | [] => some s
+  | p :: ps => if I.pickOk s p then runPicksF I (freeze I.n (I.fire s p)) ps else none
+end CompInst
+
+namespace PrimInst
+def freeze (n : Nat) (s : PState) : PState :=
+  let c := (Array.range n).map s.color
+  let k := (Array.range n).map s.cost
+  let p := (Array.range n).map s.pred
+  let l := (Array.range n).map s.proto
+  { color := tabOf c s.color, cost := tabOf k s.cost, pred := tabOf p s.pred, proto := tabOf l s.proto, order := s.order }
+
+def runPicksF (I : PrimInst) (s : PState) : List Nat → Option PState
+  | [] => some s
+  | p :: ps => if I.pickOk s p then runPicksF I (freeze I.n (I.fire s p)) ps else none
+end PrimInst
+
+end Opf
